@@ -312,8 +312,96 @@ def r5_recorded_is_consumed(ctx):
                 ctx.bad("record-carries-lexical-id", ce.where(c.block), "record_expr_local is given `%s`, not the id found by the lexical lookup" % src[:60])
 
 
+def r5b_record_unconditional(ctx):
+    """Whenever the lexical lookup of a name succeeds on a node kind whose binding the runtime consumes, the binding is recorded
+    on *every* path that follows the success - not only for some owners / kinds of variables.  A node left without a binding
+    is looked up by name on the dynamic scope stack at run time (callers' variables included)."""
+    n = 0
+    RECS = ("record_stmt_local", "record_expr_local", "record_string_segment_local")
+    for root in ("resolver::Resolver::check_stmt", "resolver::Resolver::check_expr"):
+        for fn in ctx.lib.family(ctx.need(root).id):
+            ctx.touch(fn)
+            for S in sorted(fn.live):
+                if fn.blocks[S]["t"]["k"] != "switch":
+                    continue
+                si = fn.switch_info(S)
+                if si["kind"] != "discr" or not si["ty"].endswith("Option"):
+                    continue
+                d = sh(ne(fn.deep(fn.blocks[S]["t"]["d"])))
+                if not d.startswith("discr(lookup_var_info("):
+                    continue
+                some = [(lab, j) for lab, j in fn.succ[S] if "Some" in label_names(fn, S, [lab], si)]
+                if not some:
+                    continue
+                labs = [lab for lab, j in some]
+                recs = [c for c in fn.calls() if (c.callee or "").split("::")[-1] in RECS and fn.edge_dominated(c.block, S, labs)]
+                if not recs:
+                    continue    # a lookup made for another purpose (type inference)
+                n += 1
+                arm = "/".join(sorted({x for S2, al in fn.constraints(S) for si2 in [fn.switch_info(S2)] if si2["kind"] == "discr" and ("parser::Expr" in si2["ty"] or "parser::Stmt" in si2["ty"]) for x in label_names(fn, S2, al, si2)})) or "?"
+                ordn = sum(1 for r in ctx.records if r["rule"] == ctx.rule and r["instance"].startswith("record-on-every-path|%s|%s" % (fn.id.split("::")[-1], arm)))
+                key = "record-on-every-path|%s|%s#%d" % (fn.id.split("::")[-1], arm, ordn + 1)
+                via = {c.block for c in recs}
+                r = fn.reach([j for lab, j in some], removed_nodes=via)
+                # leaving the success region without having recorded: reaching a return, or a block that is no longer under
+                # the Some edge (loop back / join)
+                escaped = sorted(b for b in r if b in set(fn.exits()) or not fn.edge_dominated(b, S, labs))
+                if escaped:
+                    ctx.bad("record-conditional|%s|%s|%s" % (fn.id.split("::")[-1], arm, recs[0].callee.split("::")[-1]), fn.where(recs[0].block),
+                            "in the %s arm the binding found by lookup_var_info is recorded only on some paths (%s can be skipped): the nodes left unbound are resolved by name on the run-time scope stack, i.e. dynamically - a same-named variable of a caller is read or written instead of the lexically enclosing one" % (arm, recs[0].callee.split("::")[-1]))
+                else:
+                    ctx.ok(key, fn.where(recs[0].block), "every path after a successful lookup passes %s" % recs[0].callee.split("::")[-1])
+    ctx.floor("successful-lookup regions that record a binding", n, 3)
+
+
+def r5c_query_on_the_variable_node(ctx):
+    """bound_expr_local is keyed by the address of the Expr::Var node the resolver recorded.  Asking it about any other node
+    (an enclosing Index expression, a copy) finds nothing and silently switches that access to dynamic name lookup."""
+    n = 0
+
+    def var_matched(fn, block, text):
+        for S, al in fn.constraints(block):
+            si = fn.switch_info(S)
+            if si["kind"] == "discr" and "parser::Expr" in si["ty"] and sh(ne(fn.deep(fn.blocks[S]["t"]["d"]))) == "discr(%s)" % text:
+                if label_names(fn, S, al, si) == {"Var"}:
+                    return True
+        return False
+    fl = ctx.need(RT + "flatten_index_target")
+    ctx.touch(fl)
+    fl_ok = False
+    for b in sorted(fl.live):
+        for st in fl.blocks[b]["s"]:
+            if st["lhs"]["l"] == 0 and not st["lhs"]["p"] and st["rv"]["k"] == "agg":
+                node = sh(ne(fl.deep(st["rv"]["ops"][0])))
+                name = sh(ne(fl.deep(st["rv"]["ops"][1])))
+                if var_matched(fl, b, node) and name == "%s@Var.0" % node:
+                    fl_ok = True
+                    ctx.ok("flatten_index_target|returns-var-node", fl.where(b), "returns (%s, %s, ..) under %s matched as Expr::Var" % (node, name, node))
+                else:
+                    ctx.bad("flatten_index_target|returns-var-node", fl.where(b), "flatten_index_target returns `%s` as the base node and `%s` as its name, but `%s` is not the node matched as Expr::Var at that point: the binding query made with it finds nothing and every write through an index chain falls back to dynamic name lookup" % (node, name, node))
+    if not fl_ok and not any(r["rule"] == ctx.rule and r["status"] == "violation" for r in ctx.records):
+        ctx.bad("flatten_index_target|shape", fl.where(), "cannot see the (node, name, indices) result of flatten_index_target")
+    for fn in sorted([f for f in ctx.lib.in_file("src/runtime.rs") if f.id.startswith(RT)], key=lambda f: f.line):
+        for c in fn.calls():
+            if (c.callee or "").split("::")[-1] != "bound_expr_local":
+                continue
+            n += 1
+            ctx.touch(fn)
+            x = sh(ne(fn.deep(c.args[1])))
+            short = fn.id.split("::")[-1]
+            ordn = sum(1 for r in ctx.records if r["rule"] == ctx.rule and r["instance"].startswith("query-node|%s#" % short))
+            key = "query-node|%s#%d" % (short, ordn + 1)
+            if var_matched(fn, c.block, x):
+                ctx.ok(key, fn.where(c.block), "asked about `%s`, matched as Expr::Var here" % x[:40])
+            elif x.startswith("flatten_index_target(") and x.endswith(".0"):
+                ctx.ok(key, fn.where(c.block), "asked about the base node returned by flatten_index_target")
+            else:
+                ctx.bad("query-node|%s|%s" % (short, x[:30]), fn.where(c.block), "bound_expr_local is asked about `%s`, which is not known to be an Expr::Var node at this point: no binding is found and the access is resolved by name on the run-time scope stack" % x[:60])
+    ctx.floor("bound_expr_local queries", n, 6)
+
+
 RULES = [("C04-R1", r1_id_directed_lookup), ("C04-R2", r2_innermost_first), ("C04-R3", r3_sorted_tables), ("C04-R4", r4_scope_discipline),
-         ("C04-R5", r5_recorded_is_consumed)]
+         ("C04-R5", r5_recorded_is_consumed), ("C04-R5b", r5b_record_unconditional), ("C04-R5c", r5c_query_on_the_variable_node)]
 
 EXPLANATION = (
     "R1: at run time every name-keyed accessor is reachable only on the None outcome of the matching binding query and every "
